@@ -36,7 +36,7 @@ PROFILES = {
     'c09': dict(kinds=['key', 'chordout', 'xx', 'lwh', 'taphold'] + K_CHORD1, depth=2),
     'c10': dict(kinds=['key', 'xx', 'lwh', 'multi'] + K_FORK, depth=2),
     'all': dict(kinds=K_BASIC + K_TAPHOLD + K_ONESHOT + K_TAPDANCE + K_MACRO + K_FORK + K_RPT + K_CUSTOM + K_CHORD1,
-                depth=3),
+                depth=3, tag='all'),
 }
 
 TIMEOUTS = [1, 2, 5, 20, 50, 100, 200]
@@ -253,6 +253,17 @@ class CfgGen:
                 o['rapid-event-delay'] = rng.choice(['5', '1', '20'])
             if rng.random() < 0.3:
                 o['transparent-key-resolution'] = rng.choice(['to-base-layer', 'layer-stack'])
+            if 'all' in self.p.get('tag', ''):
+                if rng.random() < 0.2:
+                    o['sequence-input-mode'] = rng.choice(['hidden-suppressed', 'hidden-delay-type', 'visible-backspaced'])
+                if rng.random() < 0.15:
+                    o['sequence-timeout'] = rng.choice(['20', '200'])
+                if rng.random() < 0.1:
+                    o['override-release-on-activation'] = rng.choice(['yes', 'no'])
+                if rng.random() < 0.1:
+                    o['dynamic-macro-replay-delay-behaviour'] = rng.choice(['constant', 'recorded'])
+                if rng.random() < 0.05:
+                    o['movemouse-smooth-diagonals'] = 'yes'
         lines.append('(defcfg %s)' % ' '.join('%s %s' % kv for kv in o.items()))
         lines.append('(defsrc %s)' % ' '.join(self.src))
         if 'vkeyact' in self.kinds and rng.random() < 0.7:
@@ -297,6 +308,35 @@ class CfgGen:
                 items.append('(%s) %s' % (' '.join(c), self.action(1, 'nested')))
                 self.kinds = saved
             lines.append('(defchords %s %d %s)' % (g, self.timeout(), ' '.join(items)))
+        if self.p.get('overrides') or ('all' in self.p.get('tag', '') and rng.random() < 0.3):
+            n = rng.randint(1, 4)
+            items = []
+            for _ in range(n):
+                inm = rng.sample(MODS, rng.randint(0, 2))
+                ik = rng.choice(['x', 'y', 'z', '1', '2'])
+                om = rng.sample(MODS, rng.randint(0, 2))
+                ok = rng.choice(['b', 'n', 'm', '3', '4', 'x'])
+                items.append('(%s) (%s)' % (' '.join(inm + [ik]), ' '.join(om + [ok])))
+            lines.append('(defoverrides %s)' % ' '.join(items))
+        if self.vkeys and (self.p.get('seqs') or ('all' in self.p.get('tag', '') and rng.random() < 0.4)):
+            items = []
+            used = []
+            pool = ['x', 'y', 'z', 'b', 'n']
+            for v in self.vkeys:
+                for _ in range(10):
+                    ks = [rng.choice(pool) for _ in range(rng.randint(1, 3))]
+                    if not any(ks[:len(u)] == u or u[:len(ks)] == ks for u in used):
+                        used.append(ks)
+                        r = rng.random()
+                        if r < 0.15 and len(ks) >= 2 and len(set(ks)) == len(ks):
+                            items.append('%s (O-(%s))' % (v, ' '.join(ks)))
+                        elif r < 0.3:
+                            items.append('%s (S-(%s))' % (v, ' '.join(ks)))
+                        else:
+                            items.append('%s (%s)' % (v, ' '.join(ks)))
+                        break
+            if items:
+                lines.append('(defseq %s)' % ' '.join(items))
         return '\n'.join(lines)
 
 
